@@ -202,11 +202,28 @@ PROPS['C16'] = {
 }
 WITNESS_C16 = None
 
+PROPS['C10'] = {
+    'units': [{'template': 'limits.rs', 'rlimit': 30, 'items': [r'^datalog::World::run_with_limits$', r'^token::authorizer::Authorizer::']}],
+    'proved': 'World::run_with_limits: on Ok the iteration counter grew by at most limits.max_iterations and the fact count is within limits.max_facts whenever at least one round derived something; '
+              'every exit is Ok, an expression error or one of the three run-limit errors; the loop terminates within max_iterations + 1 rounds (decreases clause) whatever the rule engine does '
+              '(its round is abstracted: any facts, any error, rule A1); the counter accumulates across calls (iterations += rounds). Authorizer::run is cached after success; authorize computes '
+              'remaining = configured - consumed without underflow, returns Timeout when the cached execution time already reaches max_time, and TooManyIterations when the counter exceeds the budget.',
+    'not_covered': ['wall-clock promptness inside one expensive iteration (time is an uninterpreted input)', 'query / query_all (generic TryInto / TryFrom signatures not brought through Verus; same three prologue lines as authorize)',
+                    'Authorizer::from_snapshot establishing the sane() precondition (iterator code)', 'what one round of rule application computes (C05)'],
+    'assumptions': ['FactSet::len is the number of facts and merge never removes one; Instant / Duration modelled as nanosecond counters whose + and -= panic on overflow / underflow (specs/limits_body.rs)',
+                    'Authorizer::authorize_inner leaves the counters alone (assumed contract)', 'requires sane(): iterations + max_iterations < u64::MAX before the first run and max_time below half the Duration range'],
+}
+PROPS['C09']['units'].append({'template': 'limits.rs', 'rlimit': 30, 'items': [r'^datalog::World::run_with_limits$', r'^token::authorizer::Authorizer::'],
+                              'exclude_obligations': [r'ok_facts_initial', r'facts_budget']})   # budget semantics belong to C10, not to panic-freedom
+
 # obligation pattern -> concrete witness search on the real crate (replay/src/main.rs)
 WITNESS = {
     r'token::(unverified::UnverifiedBiscuit|Biscuit)::block::call-pre': 'tools/replay.sh block_index',
     r'UnverifiedBiscuit::append_third_party_with_keypair::call-pre.*unwrap': 'tools/replay.sh unverified_third_party_unwrap',
     r'UnverifiedBiscuit::append_third_party_with_keypair::ensures\.tables': 'tools/replay.sh unverified_third_party_tables',
+    r'datalog::World::run_with_limits::loop0\.index': 'tools/replay.sh iterations_zero_budget',
+    r'datalog::World::run_with_limits::loop0\.ok_facts_initial': 'tools/replay.sh facts_over_budget_at_start',
+    r'Authorizer::authorize::arith': 'tools/replay.sh snapshot_iteration_underflow',
     r'datalog::contains_v3_3_(term|op)::': 'tools/replay.sh schema_version_features',
     r'datalog::SchemaVersion::check_compatibility::': 'tools/replay.sh underdeclared_block_accepted',
 }
@@ -214,7 +231,6 @@ WITNESS = {
 NOT_APPLICABLE = {
     'C05': 'the join/fixpoint engine is Box<dyn Iterator> + move closures over HashMap<Origin, HashSet<Fact>>: Verus cannot type the iterator objects, so no contract can be attached to the join; Kani did not terminate on this code (DESIGN.md 5/C05)',
     'C06': 'check not built yet in this revision (planned: Binary::evaluate integer arms, DESIGN.md 5/C06)',
-    'C10': 'check not built yet in this revision (planned: budget logic of run_with_limits, DESIGN.md 5/C10)',
     'C11': 'quantifies over hash iteration orders of the closure/iterator engine code that neither verifier ingests (DESIGN.md 5/C11)',
     'C13': 'snapshot()/from_snapshot() are chains of iter().map(closure).collect::<Result<..>>() over prost messages with symbol re-interning: outside Verus subset, Kani out of budget (DESIGN.md 5/C13)',
     'C14': 'printing is fmt::Display/format! (macro-generated), parsing is nom combinators (closures returning closures): there is no function on either side to which a contract can be attached (DESIGN.md 5/C14)',
